@@ -24,7 +24,8 @@ ASSUMPTIONS = [
     'times are non-decreasing within one (ID, observable) series (LogLikelihood documents and enforces increasing times)',
     'reference integrator vf/simshim.py for PKPD models']
 REQUIRED = ['mech:analytic', 'mech:pkpd', 'pop', 'nopop', 'cov', 'doses', 'fixed', 'ids:int', 'ids:str', 'ids:npint',
-            'custom_keys', 'explicit_map', 'nan_values', 'nan_times', 'unrelated', 'multi_output']
+            'custom_keys', 'explicit_map', 'nan_values', 'nan_times', 'unrelated', 'multi_output',
+            'explicit_map:other_order']
 OBS_TIMES_POOL = 6
 
 
@@ -146,6 +147,8 @@ def classify(spec):
         labs.append('custom_keys')
     if d['explicit_map']:
         labs.append('explicit_map')
+        if len(spec['ems']) > 1:
+            labs.append('explicit_map:other_order')
     if any(any(s['nan_v']) for i in spec['indiv'] for s in i['series']):
         labs.append('nan_values')
     if any(any(s['nan_t']) for i in spec['indiv'] for s in i['series']):
@@ -305,6 +308,14 @@ def build_controller(spec, df, K):
     if spec['pop'] is not None:
         pm = ref.build_pop(spec['pop'], None, None if not popgen.has(spec['pop'], 'hetero') else spec['n_ids'])
     omap = _observables(spec) if spec['deco']['explicit_map'] else None
+    if omap is not None and len(omap) >= 2:
+        # a dictionary has no meaningful order: its keys are listed in another order than the model's outputs
+        import random
+        items = list(omap.items())
+        random.Random(spec['deco']['order_seed'] + 1).shuffle(items)
+        if [k for k, _ in items] == list(omap):
+            items = items[1:] + items[:1]
+        omap = dict(items)
     cmap = None
     if spec['pop'] is not None and ref.pop_n_cov(spec['pop']) > 0 and spec['deco']['explicit_map']:
         cmap = {'Cov. %d' % (c + 1): _cov_observable(spec, c) for c in range(ref.pop_n_cov(spec['pop']))}
